@@ -262,6 +262,9 @@ impl StmtsCompiled {
         local_names: FrozenAnyArray<FrozenStringValue>,
         param_count: u32,
         heap: &FrozenHeap,
+        // Location of the implicit `return None` when there are no statements at all
+        // (e.g. a function whose body is `pass`).
+        empty_body_span: FrameSpan,
     ) -> Bc {
         let mut bc = BcWriter::new(local_names, param_count, heap);
         self.write_bc(compiler, &mut bc);
@@ -269,7 +272,10 @@ impl StmtsCompiled {
         // Small optimization: if the last statement is return,
         // we do not need to write another return.
         if !matches!(self.last().map(|s| &s.node), Some(StmtCompiled::Return(..))) {
-            let span = self.last().map(|s| s.span.end_span()).unwrap_or_default();
+            let span = self
+                .last()
+                .map(|s| s.span.end_span())
+                .unwrap_or(empty_body_span);
             if compiler.has_return_type {
                 bc.alloc_slot(|slot, bc| {
                     bc.write_const(span, FrozenValue::new_none(), slot.to_out());
